@@ -974,6 +974,22 @@ func (p *prover) lenOf(v ssa.Value) linExpr {
 				eq(r, "captured variable assigned once in the enclosing function")
 				return linVar(k)
 			}
+			// a field of a state struct built in place and never written again: its constructor value
+			if fa, isFA := x.X.(*ssa.FieldAddr); isFA {
+				if st := localStructFieldStore(fa); st != nil && st.Parent() != nil {
+					if st.Parent() == p.fn {
+						eq(p.lenOf(st.Val), "field of a local struct, set once at construction")
+						return linVar(k)
+					}
+					if st.Parent() == p.fn.Parent() {
+						q := &prover{eng: p.eng, fn: st.Parent(), mem: p.eng.memOf(st.Parent()), facts: p.facts, defined: p.defined, used: p.used, env: map[ssa.Value]linExpr{}, prefix: FuncName(st.Parent()) + "/", depth: p.depth, at: st}
+						r := q.lenOf(st.Val)
+						p.facts = q.facts
+						eq(r, "field of a captured local struct, set once at construction")
+						return linVar(k)
+					}
+				}
+			}
 			path := addrPath(x.X)
 			if path != "" {
 				ver := p.mem.versionAt(x, path)
